@@ -363,14 +363,14 @@ def c01_cols_grid(ctx, case):
 from vlib import dtypecheck as _dt   # noqa: E402
 
 
-@sub("C01.dtype", strategy=_dt.int_case(sorted(_dt.TABLES["C01"])), quick=300, thorough=6000,
+@sub("C01.dtype", enum=_dt.int_enum(sorted(_dt.TABLES["C01"])), exhaustive=True,
      doc="the same integer-valued samples stored as int16/int8/uint8/uint16/int32/int64 or as float64 give the same result "
          "(products of two narrow integers do not fit their dtype): " + ", ".join(sorted(_dt.TABLES["C01"])))
 def c01_dtype(ctx, case):
     _dt.body(ctx, case, _dt.TABLES["C01"])
 
 
-@sub("C01.layout", strategy=_dt.layout_case(sorted(_dt.TABLES["C01"])), quick=300, thorough=6000,
+@sub("C01.layout", enum=_dt.layout_enum(sorted(_dt.TABLES["C01"])), exhaustive=True,
      doc="a non-contiguous view of the samples (every second element of a buffer, the real part of a complex array, a column of a "
          "2-D array, a negative-stride view, a row of a Fortran-ordered array) gives the same result as a contiguous copy, and the "
          "input is not modified")
@@ -378,7 +378,7 @@ def c01_layout(ctx, case):
     _dt.layout_body(ctx, case, _dt.TABLES["C01"])
 
 
-@sub("C01.single", strategy=_dt.single_case(sorted(_dt.TABLES["C01"])), quick=200, thorough=4000,
+@sub("C01.single", enum=_dt.single_enum(sorted(_dt.TABLES["C01"])), exhaustive=True,
      doc="float32 / complex64 samples are taken for what they are: same result (to 1e-3 of the largest value) as the same values "
          "in double precision")
 def c01_single(ctx, case):
